@@ -293,6 +293,10 @@ class Ctx:
       for sub, stride in subs.items():
         cases = self.planned.get(sub, [])
         sel = cases if self.tier == 'thorough' else cases[::max(1, stride)]
+        import importlib
+        extra = getattr(importlib.import_module(self.module_name), 'config_cases', None)
+        if extra is not None:
+          sel = list(sel) + list(extra(cfg, sub, self))   # cases that only make sense under this configuration
         if not sel:
           continue
         self.pmap_config(cfg, sub, sel, chunk=max(1, len(sel) // 24))
